@@ -2,23 +2,127 @@
 
 NOTES = ("Technique family: contract-based deductive verification of the real code. pyvc re-reads /repo's working tree on "
          "every run, extracts the functions under contract by qualified name and generates verification conditions from "
-         "their ast; sidecar contracts and spec functions live in /verif/contracts. Exit codes: 0 held, 1 violation, "
-         "2 undecided / out of reach, 3 checker error.")
+         "their ast (calls by contract, loop summaries, frame obligations); sidecar contracts and spec functions live in "
+         "/verif/contracts. Where a function is out of pyvc's reach the same kind of contract is checked at run time on "
+         "the real function over a stated small scope (rtc/, labelled bounded, never counted as proved). Exit codes: "
+         "0 held, 1 violation, 2 undecided / out of reach, 3 checker error. PYVC_REPO=<dir> points a check at another "
+         "tree (used for the seeded changes in /verif/seeded); VERIF_OUT=<dir> redirects evidence / replays.")
+
+T_PROOF = "contracts + VC generation from the real ast, z3/cvc5"
+T_MIXED = "contracts: VC generation from the real ast (z3/cvc5) for the functions in reach + run-time contracts over a stated bounded scope for the rest"
+T_BOUNDED = "run-time contracts on the real functions over a stated bounded scope (bounded stand-in; nothing proved)"
+
+ASSUMED_EVAL = ("Assumed: declared field types and literal well-formedness of the tree (WF), ACYCLIC (property C09), the "
+                "paper lemma that the defining equations have a unique solution, trusted builtin axioms (cross-checked "
+                "against CPython every run), the pyvc generator itself. ")
 
 CLAIMS = {
-    "C05": {
-        "category": "proof",
-        "technique": "contracts + VC generation from the real ast, z3/cvc5",
-        "design_ref": "DESIGN.md §5.5",
-        "text": ("Choice._selection_from_defaults, Choice._selection, Choice.selection, Choice.bool_value and the choice-member "
-                 "branch of Symbol.bool_value are proved, for all trees and user states, equal to the statement's rule (user pick "
-                 "if visible, else first default whose condition holds and whose member is visible, else first visible member; "
-                 "no selection unless the choice is visible), with the cache invariants preserved and no exception."),
-        "note": ("Assumed: declared field types (WF), ACYCLIC (callees do not write the receiver's side-result fields), paper "
-                 "lemma L1 (the defining equations have a unique solution), trusted builtin axioms cross-checked against CPython; "
-                 "header/CMake/JSON agreement is carried by C07's renderer contracts; deferred application of several member "
-                 "assignments in _load_config is not covered here."),
+    "C01": {
+        "category": "proof", "technique": T_MIXED, "design_ref": "DESIGN.md §5.1",
+        "text": ("expr_value, _visibility, Symbol/Choice.visibility, Symbol.bool_value and Symbol.str_value (all five types, "
+                 "case split by type and value source with a proved exhaustiveness obligation) are proved, for all trees and "
+                 "user states, equal to spec functions transcribed from the statement: set > visible in-range user value > "
+                 "set default under direct deps > first true default > n/empty; select raises, imply raises when own deps hold "
+                 "and there is no effective user value; a user value has an effect only while the prompt is visible."),
+        "note": (ASSUMED_EVAL + "The folding of inherited dependencies / visible-if into prompt conditions at finalisation "
+                 "(_finalize_node, _propagate_deps) is NOT proved: it is covered by the bounded stand-in rtc.drv_eval "
+                 "(hidden-user-value-has-no-effect contract over generated trees with nested menus)."),
     },
+    "C02": {
+        "category": "other", "technique": T_MIXED, "design_ref": "DESIGN.md §5.2",
+        "text": ("Proved: Symbol.config_string equals the one-line spec (marker, name, value, quoting) for every type, "
+                 "has_active_default_value equals the marker rule of defaults.rst and is only called on an evaluated option, "
+                 "_escape is the quoting map. Bounded: write_config then load_config into a fresh instance reproduces "
+                 "values and lines, reports nothing, and is byte-stable (with and without the deprecated block)."),
+        "note": "The fix-point itself is decided only on the bounded scope stated in the evidence file; unescape∘escape is exercised there, not proved.",
+    },
+    "C03": {
+        "category": "other", "technique": T_MIXED, "design_ref": "DESIGN.md §5.3",
+        "text": ("Proved: every mutator of user state (Symbol.set_value / unset_value, Choice.set_value / unset_value, "
+                 "_restore_default, _rec_invalidate_if_has_prompt) stores only well-formed values, leaves everything "
+                 "unchanged when it rejects, and has invalidated the changed item before it returns; frame obligations show "
+                 "the evaluators write nothing but caches and their two side results. Bounded: edge completeness of "
+                 "_build_dep/_add_choice_deps (every symbol an option's evaluation can read lists it as dependent), closure "
+                 "of _rec_invalidate, and incremental = recomputed = fresh instance = any read order after every step of "
+                 "generated histories."),
+        "note": "Symbol._rec_invalidate / Choice._rec_invalidate enter the proofs as assumed contracts (resets only; invalidates the receiver).",
+    },
+    "C04": {
+        "category": "other", "technique": T_BOUNDED, "design_ref": "DESIGN.md §5.4",
+        "text": ("Equivalence of two parsers over all programs is not decidable by a contract within reach. Bounded "
+                 "differential contract on Kconfig.__init__ for parser_version 1 and 2: same accept/reject verdict, same menu "
+                 "tree and expressions, same outputs, over the generated corpus plus hand-written multi-file sources."),
+        "note": "Nothing is proved for this property; known divergences are listed in KNOWN_FINDINGS.jsonl.",
+    },
+    "C05": {
+        "category": "proof", "technique": T_MIXED, "design_ref": "DESIGN.md §5.5",
+        "text": ("Choice._selection_from_defaults, Choice._selection, Choice.selection, Choice.bool_value, the choice-member "
+                 "branch of Symbol.bool_value and the selection bookkeeping of Symbol.set_value are proved, for all trees and "
+                 "user states, equal to the statement's rule (user pick if visible, else first default whose condition holds "
+                 "and whose member is visible, else first visible member; no selection unless the choice is visible)."),
+        "note": (ASSUMED_EVAL + "Header/CMake/JSON agreement and the deferred application of member assignments in "
+                 "_load_config are covered by the bounded stand-in (rtc.drv_eval), not proved."),
+    },
+    "C06": {
+        "category": "proof", "technique": T_MIXED, "design_ref": "DESIGN.md §5.6",
+        "text": ("The int, hex and float branches of Symbol.str_value are proved equal to the spec (value source precedence, "
+                 "clamping into the active range with canonical re-rendering), value_is_valid / set_value are proved to accept "
+                 "exactly the well-formed values and to store floats canonically, the header entry renders hex with 0x."),
+        "note": (ASSUMED_EVAL + "CMake / JSON generators and whole-run exception freedom are bounded (rtc.drv_eval)."),
+    },
+    "C07": {
+        "category": "other", "technique": T_MIXED, "design_ref": "DESIGN.md §5.7",
+        "text": ("Proved: the sdkconfig entry (config_string) and the C header entry (_header_string) are each equal to one "
+                 "spec of (written?, type, value). Bounded: pairwise agreement of sdkconfig, header, CMake, JSON and auto.conf "
+                 "and of every deprecated alias, parsed back by independent readers."),
+        "note": "CMake/JSON writers are closures over an open file and the rename table is dict-heavy: out of pyvc's reach, bounded.",
+    },
+    "C08": {
+        "category": "other", "technique": T_MIXED, "design_ref": "DESIGN.md §5.8",
+        "text": ("Proved: the `# default:` marker predicate. Bounded: load of a tool-written file ≡ load with default-marked "
+                 "entries removed (now and after edits), policy behaviour on changed trees, promptless entries ignored."),
+        "note": "_load_config and resolve_defaults are out of pyvc's reach (400-line parser loop, report singleton).",
+    },
+    "C09": {"category": "other", "technique": T_BOUNDED, "design_ref": "DESIGN.md §5.9",
+            "text": "Bounded: deliberately cyclic trees (one back edge of every kind) are rejected with an error naming the loop; every accepted tree evaluates without exception in every reached configuration.",
+            "note": "The 3-colour loop detector memoises path-dependent results and is out of pyvc's reach; termination is not addressed."},
+    "C10": {"category": "other", "technique": T_BOUNDED, "design_ref": "DESIGN.md §5.10",
+            "text": "Bounded: the four minimal-config variants reload to the same values; labelled and unlabelled variants list the same assignments in the same order.",
+            "note": "Nothing proved."},
+    "C11": {"category": "other", "technique": T_BOUNDED, "design_ref": "DESIGN.md §5.11",
+            "text": "Bounded: loading through a deprecated name ≡ loading through the new name (inversions, not-set lines, duplicates), never unknown, deprecated block ignored unless requested.",
+            "note": "Nothing proved."},
+    "C12": {"category": "other", "technique": T_BOUNDED, "design_ref": "DESIGN.md §5.12",
+            "text": "Bounded: touch decision = changed, nothing else touched, repeated sync idempotent, and no trigger lost when the sync is killed at every file-system operation and rerun.",
+            "note": "Nothing proved; crash points are the file-system calls observed at run time."},
+    "C13": {"category": "other", "technique": T_BOUNDED, "design_ref": "DESIGN.md §5.13",
+            "text": "Bounded: unchanged regeneration leaves bytes, mtime and inode alone for every output format; a save with backup killed at every file-system operation leaves the new file or the complete .old.",
+            "note": "Nothing proved."},
+    "C14": {"category": "other", "technique": T_BOUNDED, "design_ref": "DESIGN.md §5.14",
+            "text": "Bounded: a model client applying every reply's differences equals a freshly started server on the saved file, protocol versions 1-3.",
+            "note": "Nothing proved (dict-comprehension VCs of diff stay undecided in z3 and cvc5)."},
+    "C15": {"category": "other", "technique": T_BOUNDED, "design_ref": "DESIGN.md §5.15",
+            "text": "Bounded: one JSON reply line per request line, survival, error reporting and no effect of the offending part, over a catalogue of malformed and type-confused requests.",
+            "note": "Nothing proved."},
+    "C16": {"category": "other", "technique": T_MIXED, "design_ref": "DESIGN.md §5.16",
+            "text": "Proved: set_value stores user values in the canonical form a reload produces. Bounded: needs_save() false ⇒ file on disk equals what saving would write; false right after save / load.",
+            "note": "Baseline establishment in _load_config is bounded."},
+    "C17": {"category": "other", "technique": T_BOUNDED, "design_ref": "DESIGN.md §5.17",
+            "text": "Bounded: every public method of MenuConfigState preserves the state invariant and does not raise, over action sequences on generated trees; validator-accepted values are applied.",
+            "note": "Nothing proved."},
+    "C18": {"category": "other", "technique": T_BOUNDED, "design_ref": "DESIGN.md §5.18",
+            "text": "Bounded: compliant files are left alone; whitespace-only defects converge under --replace to an equivalent OK file.",
+            "note": "Nothing proved."},
+    "C19": {"category": "other", "technique": T_BOUNDED, "design_ref": "DESIGN.md §5.19",
+            "text": "Bounded: verdict = own scope only, independent of check order, over generated directory layouts.",
+            "note": "Nothing proved."},
+    "C20": {"category": "other", "technique": T_BOUNDED, "design_ref": "DESIGN.md §5.20",
+            "text": "Bounded: reachable prompted options are documented, shown conditions are truth-preserving, no dangling :ref:, by brute force over small trees and targets.",
+            "note": "Nothing proved."},
 }
+
+# properties not claimed yet (reason shown in MANIFEST.not_applicable); filled by tools/gen_manifest.py from the
+# set of ENABLED checks below
+ENABLED = ["C05"]
 
 NOT_APPLICABLE = {}
